@@ -62,6 +62,9 @@ void BrentOneDimension::doInit(const ParameterList& params)
   else
   {
     bracket = OneDimensionOptimizationTools::inwardBracketMinimum(_xinf, _xsup, function(), getParameters());
+    // The inward search returns the two ends in a and b and the best point in c, whereas we expect the best point in b:
+    NumTools::swap<double>(bracket.b.x, bracket.c.x);
+    NumTools::swap<double>(bracket.b.f, bracket.c.f);
   }
 
   if (getVerbose() > 0)
